@@ -722,12 +722,21 @@ fn vanishing_repetition_exposes_tree(fam: &transform::Family) -> bool {
     // (Counting misses the case in which the whole has another tree wildcard at its edge — inside
     // the final repetition itself — so the shape is also looked for directly: a tree wildcard
     // written next to a repetition that may vanish.)
+    // A token that begins (ends) with a tree wildcard, directly or through the first (last) tokens
+    // of its branches.
+    fn edge_is_tree(t: &Tok, first: bool) -> bool {
+        let edge = |s: &Seq| if first { s.toks.first().map_or(false, |t| edge_is_tree(t, first)) } else { s.toks.last().map_or(false, |t| edge_is_tree(t, first)) };
+        match &t.node {
+            Node::Tree { .. } => true,
+            Node::Rep { body, .. } => edge(body),
+            Node::Alt(bs) => bs.iter().any(edge),
+            _ => false,
+        }
+    }
     fn tree_next_to_optional_repetition(seq: &Seq) -> bool {
         let adjacent = seq.toks.windows(2).any(|w| {
-            matches!(
-                (&w[0].node, &w[1].node),
-                (Node::Tree { .. }, Node::Rep { lo: 0, .. }) | (Node::Rep { lo: 0, .. }, Node::Tree { .. })
-            )
+            (matches!(w[1].node, Node::Rep { lo: 0, .. }) && edge_is_tree(&w[0], false))
+                || (matches!(w[0].node, Node::Rep { lo: 0, .. }) && edge_is_tree(&w[1], true))
         });
         adjacent
             || seq.toks.iter().any(|t| match &t.node {
